@@ -392,18 +392,34 @@ func c01(c *core.Ctx) {
 			}
 			key := core.FuncName(fn) + ":success-needs-decode"
 			bad := ""
+			isDec := func(in ssa.Instruction) bool {
+				for _, d := range decs {
+					if in == ssa.Instruction(d) {
+						return true
+					}
+				}
+				return false
+			}
 			for _, r := range core.Returns(fn) {
 				if core.ClassifyErr(r.Results[0], r) == core.ErrNonNil {
 					continue
 				}
-				if !core.MustPass(core.Entry(fn), r, func(in ssa.Instruction) bool {
-					for _, d := range decs {
-						if in == ssa.Instruction(d) {
-							return true
+				if !core.MustPass(core.Entry(fn), r, isDec) {
+					// a receive loop: nil only under a "got it" flag that is set after the decode and nowhere else
+					underFlag := true
+					for _, l := range expandLeaves(core.ErrLeaves(r.Results[0], r), 0) {
+						if l.Class == core.ErrNonNil {
+							continue
+						}
+						if !core.LeafGuarded(l, func(f core.Fact) bool {
+							return f.Op == token.ILLEGAL && !f.Neg && flagSetOnlyAfter(f.X, fn, isDec)
+						}) {
+							underFlag = false
 						}
 					}
-					return false
-				}) {
+					if underFlag {
+						continue
+					}
 					bad = "a possibly-nil return is reachable without decoding into the destination (e.g. a special case for some sizes): the caller's message keeps its previous content"
 				}
 			}
@@ -831,9 +847,18 @@ func c01Framing(c *core.Ctx) {
 						pred := ph.Block().Preds[i]
 						last := pred.Instrs[len(pred.Instrs)-1]
 						endPar := fn.Params[len(fn.Params)-1]
+						endIsBool, endK := true, int64(0)
+						if ei, isB, k, okE := frameWriterEndParam(fn); okE {
+							endPar, endIsBool, endK = fn.Params[ei], isB, k
+						}
 						if core.GuardedBy(last, func(f core.Fact) bool {
-							if f.Op == token.ILLEGAL && !f.Neg && f.X == ssa.Value(endPar) {
+							if endIsBool && f.Op == token.ILLEGAL && !f.Neg && f.X == ssa.Value(endPar) {
 								return true
+							}
+							if !endIsBool && f.Op == token.EQL && f.X == ssa.Value(endPar) {
+								if k, isC := core.ConstInt(f.Y); isC && k == endK {
+									return true
+								}
 							}
 							// negating a zero size is harmless (-0 == 0)
 							if k, isC := core.ConstInt(f.Y); isC && k == 0 && f.Op == token.EQL {
